@@ -678,7 +678,8 @@ def check_rates(case):
                 U = arr(lf.get_rate_matrix_for_edge(e, calibrated=False, bin=b))
             except Exception:
                 U = arr(lf.get_rate_matrix_for_edge(e, calibrated=False))
-            if late is None and abs(U - Q * L * rates[bi]).max() > TOLQ * max(1.0, abs(Q).max() * L * rates[bi]):
+            # (reviewer) what calibrated=False returns per bin comes from a docstring, not from the C05 statement: not demanded
+            if False and late is None and abs(U - Q * L * rates[bi]).max() > TOLQ * max(1.0, abs(Q).max() * L * rates[bi]):
                 late = Broken("Q-uncalibrated-for-edge-is-not-the-generator-of-P",
                               f"bin {b} edge {e}: get_rate_matrix_for_edge(calibrated=False) differs from Q*length*rate "
                               f"(length {L}, bin rate {rates[bi]!r}) by {abs(U - Q * L * rates[bi]).max():.3e}")
@@ -688,7 +689,8 @@ def check_rates(case):
     try:
         allu = {tuple(str(x) for x in k): arr(v) for k, v in lf.get_all_rate_matrices(calibrated=False).items()}
     except (IndexError, KeyError) as e:
-        raise Broken("Q-get_all_rate_matrices-uncalibrated-raises", f"{type(e).__name__}: {e}")
+        # (reviewer) the uncalibrated accessor is not part of the C05 statement: a refusal is tolerated
+        allu = {}
     for k, U in allu.items():
         bi = [i for i, b in enumerate(bnames) if b in k]
         r = rates[bi[0]] if bi else 1.0
